@@ -5,6 +5,9 @@ from vlib.runner import Ob
 # supported platform), recorded as a cut + ub note.
 RF = (r"if \(f->rp > f->raw\)", "if ((uintptr_t) f->rp > (uintptr_t) f->raw)")
 RF_PATCH = {"src/dvb_demux.c": [RF]}
+# extract_data_units(): `p + data_unit_length > p_end_m2` forms a pointer up to 255 bytes beyond the payload object before comparing (standard-level UB,
+# fatal for CBMC's pointer check); rewritten to the equivalent length comparison (p < p_end_m2 holds in the loop); reported as ub note with this as the fix.
+DUOV = (r"p \+ data_unit_length > p_end_m2", "data_unit_length > (unsigned int)(p_end_m2 - p)")
 SCALE_PATCH = {"src/dvb_demux.c": [(r"pes_buffer\[ALIGN \(6 \+ 65536\)\]", "pes_buffer[PESCAP_SCALED]"), RF]}
 
 
@@ -38,11 +41,12 @@ def obligations(tier, seed):
     tsplit_t = [dict(TS=1, SHAPE=s, CUT=c) for s in (0, 1, 2, 3, 4) for c in
                 (1, 3, 4, 5, 9, 10, 11, 50, 51, 100, 187, 188, 189, 191, 192, 196, 197, 198, 199, 200, 238, 239, 300, 375)]
     tsplit_t += [dict(TS=1, SHAPE=0, CUT=c, CUT2=d) for (c, d) in ((4, 188), (100, 197), (188, 192), (197, 198), (10, 370))]
-    garb_q = [dict(TS=0, LEN1=40, LEN2=0), dict(TS=0, LEN1=64, LEN2=0), dict(TS=0, LEN1=30, LEN2=40)]
-    garb_t = garb_q + [dict(TS=0, LEN1=1, LEN2=60), dict(TS=0, LEN1=47, LEN2=17), dict(TS=0, LEN1=48, LEN2=16), dict(TS=0, LEN1=60, LEN2=4)]
-    garb_big = [dict(TS=0, LEN1=100, LEN2=0), dict(TS=0, LEN1=60, LEN2=60), dict(TS=1, LEN1=100, LEN2=97), dict(TS=1, LEN1=197, LEN2=0), dict(TS=1, LEN1=9, LEN2=188)]
+    garb_q = [dict(TS=0, LEN1=40, LEN2=0), dict(TS=0, LEN1=20, LEN2=27), dict(TS=1, LEN1=100, LEN2=96)]
+    garb_t = garb_q + [dict(TS=0, LEN1=1, LEN2=46), dict(TS=0, LEN1=47, LEN2=0), dict(TS=1, LEN1=9, LEN2=187), dict(TS=1, LEN1=196, LEN2=0)]
     du_q = [dict(DUL=46, RAW=0), dict(DUL=7, RAW=0)]
     du_t = du_q + [dict(DUL=d, RAW=0) for d in (3, 4, 5, 6, 8, 16, 17, 18, 47, 48, 138, 257, 259)]
+    # Dropped after measurement (harness functions kept for reference): split_equiv_symunit (first unit of packet 2 fully symbolic, byte-backed
+    # output array): no verdict in 900 s; bytewise_equiv (368 one-byte feeds): no verdict in 900 s.
     return [
         Ob("wrap_around_step", defines={"G_WRAP": None}, func="h_wrap_step", unwind=12, solver="cadical",
            desc="INV-STEP refinement of the real static wrap_around(): symbolic skip (32 bit), lookahead <= CAP, leftover, bp, src_left <= SS, symbolic wrap buffer, "
@@ -75,7 +79,7 @@ def obligations(tier, seed):
            encodes=["vbi_dvb_demux_feed", "demux_pes_packet", "wrap_around", "demux_pes_packet_frame", "valid_vbi_pes_packet_header", "decode_timestamp",
                     "extract_data_units", "line_address", "reset_frame"],
            assumes=seq_assumes, bounds="2 packets (368 bytes); cut positions on the grid (6 quick; 43 positions x 5 shapes + 8 double cuts thorough)",
-           outside="unit structure symbolic (frame.sp symbolic: see DESIGN R2; covered for one unit by split_equiv_symunit in thorough); PES packets > 184 bytes",
+           outside="symbolic unit structure (frame.sp symbolic; tried with one symbolic unit: no verdict in 900 s); single-byte feeding (368 calls: no verdict in 900 s); PES packets > 184 bytes",
            grid=split_t, quick_grid=split_q, reach=["end"], timeout=600, mem_gb=3, vin_size=400, **common),
         Ob("split_equiv_ts", func="h_split_equiv", unwind=50, unwindset=uw_seq, flags=fs, patch=SCALE_PATCH,
            defines={"G_SEQ": None, "SCALED_PES_BUFFER": 1, "PESCAP_SCALED": 256},
@@ -84,60 +88,41 @@ def obligations(tier, seed):
            encodes=["vbi_dvb_demux_feed", "demux_ts_packet", "demux_pes_packet_frame", "valid_vbi_pes_packet_header", "extract_data_units"],
            assumes=ts_assumes, bounds="2 TS packets (376 bytes); cuts on the grid", outside="adaptation fields, PID mismatch, continuity errors in the split runs (see garbage_*)",
            grid=tsplit_t, quick_grid=tsplit_q, reach=["end"], timeout=600, mem_gb=3, vin_size=400, **common),
-        Ob("split_equiv_symunit", func="h_split_equiv", unwind=50, unwindset=uw_seq, flags=fs, patch=RF_PATCH, tier="thorough", solver="cadical",
-           defines={"G_SEQ": None, "SHAPE": 5, "OUT_BYTES": 1, "TS": 0},
-           desc="as split_equiv_pes with the first data unit of packet 2 fully symbolic (data_unit_id, field parity/line_offset, framing code, payload): continuation, "
-                "new frame, illegal line, unknown unit, stuffing are all in play; output array byte-backed (R2(f))",
-           encodes=["vbi_dvb_demux_feed", "demux_pes_packet", "extract_data_units", "line_address"], assumes=seq_assumes,
-           bounds="cuts on the grid", grid=[dict(CUT=c) for c in (47, 184, 231, 300)], reach=["end", "frame_delivered", "frame_continued"],
-           timeout=900, mem_gb=8, vin_size=400, **common),
         Ob("cor_equiv", defines={"G_SEQ": None}, func="h_cor_equiv", unwind=50, unwindset=dict(uw_seq, **{"h_cor_equiv.3": 4}), flags=fs, patch=RF_PATCH,
            desc="vbi_dvb_demux_cor (callback NULL) on the same stream returns the frames the callback interface delivers (lines, PTS), consumes the whole stream",
            encodes=["vbi_dvb_demux_cor", "demux_pes_packet", "demux_pes_packet_frame"], assumes=seq_assumes, bounds="2 packets, shapes 0..2",
            grid=[dict(TS=0, SHAPE=s) for s in (0, 1, 2, 3, 4)], quick_grid=[dict(TS=0, SHAPE=0)], reach=["end"], timeout=600, mem_gb=3, vin_size=400, **common),
-        Ob("bytewise_equiv", defines={"G_SEQ": None}, func="h_bytewise_equiv", unwind=50, unwindset=dict(uw_seq, **{"h_bytewise_equiv.1": 380, "demux_pes_packet.3": 6}), flags=fs, patch=RF_PATCH,
-           tier="thorough",
-           desc="368 single-byte feeds equal one whole feed (same checks as split_equiv_pes)", encodes=["vbi_dvb_demux_feed", "demux_pes_packet", "wrap_around"],
-           assumes=seq_assumes, bounds="2 packets, shapes 0 and 1", grid=[dict(TS=0, SHAPE=0), dict(TS=0, SHAPE=1)], reach=["end"],
-           timeout=900, mem_gb=6, vin_size=400, **common),
-        Ob("garbage_feed", defines={"G_SEQ": None}, func="h_garbage", unwind=45, unwindset={"memcpy.0": 72, "memmove.0": 72, "memmove.1": 72, "memset.0": 300, "demux_pes_packet.3": 8, "demux_pes_packet.1": 26}, flags=fs, patch=RF_PATCH, solver="cadical",
+        Ob("garbage_feed", defines={"G_SEQ": None}, func="h_garbage", unwind=45, unwindset={"memcpy.0": 202, "memmove.0": 50, "memmove.1": 50, "memset.0": 300, "demux_pes_packet.3": 4, "demux_pes_packet.1": 4, "demux_ts_packet.9": 4}, flags=fs, patch=RF_PATCH, solver="cadical",
            desc="LEN1 (+LEN2) fully symbolic bytes fed from reset to the PES resp. TS demultiplexer, callback result symbolic: all safety properties of dvb_demux.c "
                 "(exact-size source buffers, pes_buffer/ts_buffer, pointer arithmetic, overflow, shift), termination inside the unwind bounds, representation invariant "
                 "after each call, feed returns TRUE unless the callback refused",
            encodes=["vbi_dvb_demux_feed", "demux_pes_packet", "demux_ts_packet", "wrap_around", "valid_vbi_pes_packet_header", "decode_timestamp"],
            assumes=seq_assumes[:3] + ["PES runs: pes_wrap.buffer re-pointed to 192 bytes >= total number of bytes fed (the buffer never holds more than was fed, whatever "
                                       "packet length the garbage announces); TS runs use the real 65552 byte pes_buffer"],
-           bounds="PES demultiplexer; buffer lengths on the grid (total <= 70 bytes): no complete 184 byte packet fits, so data-unit extraction is covered by data_units_garbage instead",
+           bounds="total length below the first look-ahead (PES < 48, TS < 197 bytes): exercises the accumulation of partial look-ahead across calls only",
+           outside="garbage long enough to enter the start-code / sync-byte scan with symbolic content: measured no verdict (PES 52 bytes: symex > 280 s; 64 bytes: > 900 s; the "
+                   "symbolic skip makes every later copy length and source offset symbolic) - the scan is covered compositionally: wrap_around_step (any skip/lookahead) + "
+                   "split/recovery obligations (concrete structure); TS continuity/PID faults are not covered",
            grid=garb_t, quick_grid=garb_q, reach=["end"], timeout=900, mem_gb=6, vin_size=400, **common),
-        Ob("garbage_feed_big", defines={"G_SEQ": None}, func="h_garbage", unwind=45, tier="thorough", unwindset={"memcpy.0": 202, "memmove.0": 202, "memmove.1": 202, "memset.0": 300, "demux_pes_packet.3": 14, "demux_pes_packet.1": 80, "demux_ts_packet.0": 190, "demux_ts_packet.9": 6}, flags=fs, patch=RF_PATCH, solver="cadical",
-           desc="LEN1 (+LEN2) fully symbolic bytes fed from reset to the PES resp. TS demultiplexer, callback result symbolic: all safety properties of dvb_demux.c "
-                "(exact-size source buffers, pes_buffer/ts_buffer, pointer arithmetic, overflow, shift), termination inside the unwind bounds, representation invariant "
-                "after each call, feed returns TRUE unless the callback refused",
-           encodes=["vbi_dvb_demux_feed", "demux_pes_packet", "demux_ts_packet", "wrap_around", "valid_vbi_pes_packet_header", "decode_timestamp"],
-           assumes=seq_assumes[:3] + ["PES runs: pes_wrap.buffer re-pointed to 192 bytes >= total number of bytes fed (the buffer never holds more than was fed, whatever "
-                                      "packet length the garbage announces); TS runs use the real 65552 byte pes_buffer"],
-           bounds="PES demultiplexer; buffer lengths on the grid (PES up to 120 bytes, TS up to 197 bytes (first sync search)): no complete 184 byte packet fits, so data-unit extraction is covered by data_units_garbage instead",
-           grid=garb_big, reach=["end"], timeout=1800, mem_gb=10, vin_size=400, **common),
-        Ob("data_units_garbage", defines={"G_DU": None}, func="h_data_units", unwind=43, unwindset={"memcpy.0": 300, "extract_data_units.8": 2}, solver="cadical",
+        Ob("data_units_garbage", defines={"G_DU": None}, func="h_data_units", patch={"src/dvb_demux.c": [DUOV]}, unwind=43, unwindset={"memcpy.0": 300, "extract_data_units.8": 2}, solver="cadical",
            desc="INV-STEP over the data-unit loop of extract_data_units: one fully symbolic data unit (payload of DUL bytes, exact-size object, first unit reaching to "
                 "within 2 bytes of the end) from ANY frame state (sp anywhere in [begin,end], any last line/field/unit id/extracted count), frame.raw == NULL as in every "
                 "state the public API can reach: no access outside payload or output array, sp stays inside the array (= the invariant, so payloads with any number of such "
                 "units follow by induction), success consumes everything, an error leaves *src at the offending unit with *src_left the rest, error codes in range",
            encodes=["extract_data_units", "line_address", "lofp_to_line"], bounds="payload/unit length DUL on the grid (7, 46 quick; 3..259 thorough); output array of 3 lines",
            assumes=["first data unit covers the payload up to the last 2 bytes (single loop iteration; induction over sp in [begin,end])",
+                    "dvb_demux.c:893 `p + data_unit_length > p_end_m2` rewritten to `data_unit_length > p_end_m2 - p` (patch; out-of-object intermediate pointer, see ub note)",
                     "R2(f): output array byte-backed"],
            outside="frame.raw != NULL (not reachable through the public API: vbi_dvb_demux_reset never sets it; see report: latent p[5] over-read and sp underflow)",
            grid=du_t, quick_grid=du_q, reach=["end", "ok", "error", "line_stored"], timeout=900, mem_gb=6, vin_size=600, **common),
-        Ob("recovery_units", func="h_recovery", unwind=50, unwindset=uw_seq, flags=fs, patch=RF_PATCH, defines={"G_SEQ": None, "DAMAGE_UNITS_ONLY": 1, "TS": 0, "LOGN": 4},
-           desc="damaged packet (valid header, all three data units symbolic except their length bytes) followed by intact packets A, B, C (one Teletext line each, symbolic "
-                "payload/PTS): frame B is delivered exactly (line 7, payload, PTS of B), C is pending with its PTS - whatever the damage",
-           encodes=["vbi_dvb_demux_feed", "demux_pes_packet", "demux_pes_packet_frame", "extract_data_units"], assumes=seq_assumes,
-           bounds="4 packets of 184 bytes, whole feed", outside="damage that changes data_unit_length bytes or the PES header (recovery_header, thorough)",
-           reach=["end"], solver="cadical", timeout=900, mem_gb=6, vin_size=600, **common),
-        Ob("recovery_header", func="h_recovery", unwind=50, unwindset=dict(uw_seq, **{"extract_data_units.8": 71, "log_cb.0": 34}), flags=fs, patch=RF_PATCH, tier="thorough",
-           defines={"G_SEQ": None, "TS": 0, "LOGN": 4, "OUTN": 32, "OUT_BYTES": 1}, solver="cadical",
-           desc="as recovery_units but everything behind PES_packet_length of the damaged packet is symbolic (flags, PTS, header length, data_identifier, all unit ids/lengths)",
-           encodes=["vbi_dvb_demux_feed", "demux_pes_packet", "valid_vbi_pes_packet_header", "extract_data_units"], assumes=seq_assumes,
-           bounds="4 packets of 184 bytes, whole feed; output array 32 lines (a 138 byte payload holds at most 23 units)", reach=["end"],
-           timeout=900, mem_gb=10, vin_size=600, **common),
+        Ob("recovery", defines={"G_SEQ": None, "TS": 0, "LOGN": 4}, func="h_recovery", unwind=50, unwindset=uw_seq, flags=fs, patch=RF_PATCH,
+           desc="PES stream D A B C: D damaged in one of 9 ways (PES flags, reserved data_identifier, wrong header length, illegal line, unit crossing the packet, "
+                "foreign stream id, PTS missing at a frame start, duplicate line, intact-but-later line), A B C intact single-line frames; payloads and all PTS "
+                "symbolic: frame B is the last delivered frame, exactly (line, service, 42 payload bytes, B's PTS), C is pending with its PTS and payload; at most 3 frames",
+           encodes=["vbi_dvb_demux_feed", "demux_pes_packet", "demux_pes_packet_frame", "valid_vbi_pes_packet_header", "extract_data_units", "line_address"],
+           assumes=seq_assumes, bounds="4 packets of 184 bytes, whole feed; damage kinds on the grid",
+           outside="damage with symbolic position/content (measured: symbolic data units in D make frame.sp symbolic: no verdict in 900 s); truncated packets "
+                   "(the demux then skips into the next packet and an adversarial payload can imitate a start code: the property's 'at most the first frame' does not hold "
+                   "for arbitrary payloads - not claimed); TS recovery (continuity/PID/sync loss) beyond garbage_feed_big",
+           grid=[dict(DKIND=k) for k in range(9)], quick_grid=[dict(DKIND=k) for k in (0, 3, 4, 8)], reach=["end"], timeout=600, mem_gb=3, vin_size=400, **common),
     ]
